@@ -1,5 +1,5 @@
 """C03 - the result belongs to the consumed text (Matched/RestInput contract)."""
-import json, os
+import json, re, os
 import vlib
 from vlib import Work, run_vh, run_tlc, tlc_must_pass, read_ndjson, MachineryError
 from . import langlib
@@ -70,7 +70,13 @@ def run(rep, tier, seed):
             why = sorted(set(b["why"]) & TAGS)
             if not why:
                 continue
-            rep.violation({"key": "%s-%s" % ("+".join(why), abs(hash(e["tail"])) % 100000), "kind": "c03",
+            key = "%s-%s" % ("+".join(why), abs(hash(e["tail"])) % 100000)
+            # two recorded defects of the grammar, identified by the shape of the input
+            if re.search(r"return\s[^;]*\]\s*=", e["input"]) and "==" not in e["tail"]:
+                key = "return-index-before-assign"           # KF-C03-1
+            elif re.search(r"(^|[^A-Za-z0-9_])[aA]\(\d+\)$", e["text"]) and e["tail"] and re.match(r"[\w\u4e00-\u9fff]", e["tail"].lstrip()[:1] or " "):
+                key = "wod-guard-looks-past-blanks"          # KF-C03-2
+            rep.violation({"key": key, "kind": "c03",
                            "what": "%s: input %r -> Matched %r returned %s; Matched alone returned %s%s" % (
                                "/".join(why), e["input"][:160], e["a"]["matched"][:80], e["a"]["ret"][:80], e["b"]["ret"][:80],
                                "" if e["valOK"] else " (the semantics prescribe another outcome for the consumed program)"),
